@@ -5,8 +5,10 @@ import sys
 import time
 
 ROOT = os.path.dirname(os.path.dirname(os.path.abspath(__file__)))
-EVIDENCE_DIR = os.path.join(ROOT, 'evidence')
-OUT_DIR = os.path.join(ROOT, 'out')
+# VERIF_TRIAL_DIR: trial runs against seeded changes (tools/try_seed.py) must not overwrite the real evidence
+_trial = os.environ.get('VERIF_TRIAL_DIR')
+EVIDENCE_DIR = os.path.join(_trial, 'evidence') if _trial else os.path.join(ROOT, 'evidence')
+OUT_DIR = os.path.join(_trial, 'out') if _trial else os.path.join(ROOT, 'out')
 FINDINGS_FILE = os.path.join(ROOT, 'known_findings.json')
 
 sys.dont_write_bytecode = True
